@@ -5,6 +5,7 @@ import (
 	"flag"
 	"fmt"
 	"os"
+	"os/exec"
 	"path/filepath"
 	"sort"
 	"strconv"
@@ -122,29 +123,40 @@ func cmdFunc(args []string) int {
 	rc := 0
 	for _, id := range fs.Args() {
 		con := CS.ByID["func "+id]
+		var c *Ctx
+		var err error
+		if con == nil {
+			if lc := CS.ByID["lemma "+id]; lc != nil {
+				con = lc
+			}
+		}
 		if con == nil {
 			fmt.Printf("no contract for %s\n", id)
 			rc = 1
 			continue
 		}
 		fn := P.Funcs[id]
-		if fn == nil {
+		if fn == nil && con.Kind != "lemma" {
 			fmt.Printf("function %s not found\n", id)
 			rc = 1
 			continue
 		}
-		c, err := verifyFunction(P, CS, fn, con)
+		if con.Kind == "lemma" {
+			c, err = verifyLemma(P, CS, con)
+		} else {
+			c, err = verifyFunction(P, CS, fn, con)
+		}
 		if err != nil {
 			fmt.Printf("%s: %v\n", id, err)
 			rc = 1
 			continue
 		}
-		out := filepath.Join(os.TempDir(), "govc-func")
+		out := filepath.Join(os.TempDir(), "govc-func", sanitize(id))
 		os.RemoveAll(out)
 		dischargeAll([]*Ctx{c}, out, *timeout, 6, false)
 		for _, o := range c.obls {
 			fmt.Printf("%-12s %-9s %6dms  %s   [%s]\n", o.Verdict, o.Solver, o.Ms, o.Name, o.Pos)
-			if o.Verdict != "discharged" && o.Verdict != "reachable" {
+			if o.Verdict != "discharged" && o.Verdict != "reachable" && o.Verdict != "reach-unknown" {
 				rc = 1
 				fmt.Printf("      %s\n      file: %s\n", o.Descr, o.File)
 				if *dump && o.Model != "" {
@@ -234,6 +246,16 @@ func cmdCheck(args []string) int {
 		}
 		reports = append(reports, rep)
 		repByFn[con.ID] = rep
+		if con.Kind == "lemma" {
+			c, err := verifyLemma(P, CS, con)
+			if err != nil {
+				rep.Error = err.Error()
+				violation("unverifiable:"+con.ID, map[string]interface{}{"obligation": "vc-generation", "function": con.ID, "error": err.Error()}, false)
+				continue
+			}
+			ctxs = append(ctxs, c)
+			continue
+		}
 		fn := P.Funcs[con.ID]
 		if fn == nil {
 			rep.Error = "contract binds to no function"
@@ -280,7 +302,7 @@ func cmdCheck(args []string) int {
 		}
 		for _, o := range c.obls {
 			solverMs += o.Ms
-			if o.Expect == "sat" {
+			if o.Expect != "" {
 				vac++
 				if o.Verdict == "vacuous" {
 					violation(o.Name, map[string]interface{}{"obligation": o.Name, "kind": "vacuity", "descr": o.Descr, "smt": o.File, "error": "contract is vacuous: " + o.Descr}, false)
@@ -314,6 +336,11 @@ func cmdCheck(args []string) int {
 			violation(o.Name, payload, reproduced)
 		}
 	}
+	// ground-axiom tests: finite instances of assumed facts, executed against the real libraries
+	groundRun, groundFail, groundOut := runGroundTests(croot, *prop)
+	if groundFail > 0 {
+		violation("ground-axioms", map[string]interface{}{"obligation": "ground-axiom-tests", "error": "an assumed ground fact is false for the real library", "output": groundOut}, true)
+	}
 	sort.Strings(knownLines)
 	for _, l := range knownLines {
 		fmt.Println(l)
@@ -330,12 +357,34 @@ func cmdCheck(args []string) int {
 	}
 	sort.Strings(assumedL)
 	sort.Strings(axiomL)
+	groundTestsRun = groundRun
 	writeEvidence(root, *prop, *tier, seed, reports, samples, byBackend, time.Since(t0).Seconds(), violations, assumedL, axiomL, total, discharged)
 	fmt.Printf("property %s: %d functions under contract, %d obligations, %d discharged, %d vacuity checks, %d known findings, %d violations, %.1fs\n", *prop, len(cons), total, discharged, vac, len(knownLines), violations, time.Since(t0).Seconds())
 	if violations > 0 {
 		return 1
 	}
 	return 0
+}
+
+var groundTestsRun int
+
+// runGroundTests executes /verif/ground tests named TestGround<PROP>_*.
+func runGroundTests(root, prop string) (run, failed int, out string) {
+	dir := filepath.Join(root, "ground")
+	if _, err := os.Stat(dir); err != nil {
+		return 0, 0, ""
+	}
+	cmd := exec.Command("go", "test", "-count=1", "-vet=off", "-v", "-run", "^TestGround"+prop+"_", "./...")
+	cmd.Dir = dir
+	cmd.Env = append(os.Environ(), "GOFLAGS=-mod=mod", "GOPROXY=off", "GOSUMDB=off", "GOTOOLCHAIN=local")
+	b, _ := cmd.CombinedOutput()
+	out = string(b)
+	run = strings.Count(out, "--- PASS") + strings.Count(out, "--- FAIL")
+	failed = strings.Count(out, "--- FAIL")
+	if strings.Contains(out, "[build failed]") {
+		failed++
+	}
+	return
 }
 
 func writeEvidence(root, prop, tier string, seed int, reports []*funcReport, samples []map[string]interface{}, byBackend map[string]int, wall float64, violations int, assumed, axioms []string, total, discharged int) {
@@ -364,6 +413,7 @@ func writeEvidence(root, prop, tier string, seed int, reports []*funcReport, sam
 		"functions_under_contract": reports,
 		"by_backend":               byBackend,
 		"assumed_contracts":        assumed,
+		"ground_axiom_tests_run":   groundTestsRun,
 	}
 	ev := map[string]interface{}{
 		"property_id": prop,
